@@ -1,4 +1,6 @@
 \* (state, now, bytes) lines of real content files (CF_LINES): EncodeRaw(state, now) = bytes, decoder agrees
+\* module ContentFormatMC; needs witness_crc32c.json in the working directory (harness/py/cfmt.py write_crc_witness);
+\* run through harness/py/cfspec.py, which copies the spec into a private directory under out/
 CONSTANT Part = "check"
 INIT Init
 NEXT Next
